@@ -145,6 +145,30 @@ func c48(c *Ctx) {
 			c.Expect(len(arms) >= 10, nil, f, tr.fn+":arms-found", "fewer oneof arms than confirmed by reading")
 			for _, r := range successReturns(f, 1) {
 				c.Unreachable(r, tr.fn+":unknown-oneof-arm-fails", none...)
+				// one matcher per listed rule: the list is returned only after every element was translated
+				exhausted := func(fc Fact) bool {
+					return fc.Kind == "cmp" && fc.Op == token.GEQ && isRangeIndex(fc.X) && LenOf(AnyV)(fc.Y)
+				}
+				c.MustFact(r, tr.fn+":list-returned-only-after-all-rules-translated", exhausted)
+				ph, isPhi := r.Results[0].(*ssa.Phi)
+				okAcc := isPhi
+				if isPhi {
+					for _, e := range ph.Edges {
+						if ConstNil(e) || e == ssa.Value(ph) || builtinCall(e, "append") != nil {
+							continue
+						}
+						if q, ok := e.(*ssa.Phi); ok {
+							for _, qe := range q.Edges {
+								if !(qe == ssa.Value(ph) || builtinCall(qe, "append") != nil) {
+									okAcc = false
+								}
+							}
+							continue
+						}
+						okAcc = false
+					}
+				}
+				c.Expect(okAcc, r, f, tr.fn+":returns-the-accumulated-list", "the translator returns something other than the list accumulated over all rules")
 			}
 			// implementers of the oneof interface not handled (evidence only: they fail closed)
 			var unh []string
